@@ -59,6 +59,7 @@ class Module:
         if not isinstance(module, Module):
             raise TypeError("All submodules must be of type Module")
         
+        self._parameters.pop(name, None)
         self._submodules[name] = module
         object.__setattr__(self, name, module)
         
@@ -68,6 +69,7 @@ class Module:
         if not isinstance(parameter, Parameter):
             raise TypeError("All parameters must be of type Parameter")
         
+        self._submodules.pop(name, None)
         self._parameters[name] = parameter
         object.__setattr__(self, name, parameter)
         
@@ -91,6 +93,8 @@ class Module:
         elif isinstance(__value, Parameter):
             self.register_parameter(__name, __value)
         else:  
+            if '_parameters' in self.__dict__: self._parameters.pop(__name, None)
+            if '_submodules' in self.__dict__: self._submodules.pop(__name, None)
             object.__setattr__(self, __name, __value)
     
     def parameters(self) -> list['Parameter']:
